@@ -28,6 +28,82 @@ func pipe2Rules(c *Ctx) {
 	c.canonicalRefs(reach)
 	c.progressRule(reach)
 	c.panicUnreachable(reach)
+	c.resolveSkipped(reach)
+}
+
+// resolveSkipped (C09): a $ref that a phase skips because it already has the canonical form '#/definitions/<name>'
+// must still be looked up, otherwise a dangling local $ref is never noticed and Flatten reports success.
+func (c *Ctx) resolveSkipped(reach []*core.FuncInfo) {
+	n := 0
+	for _, fi := range reach {
+		if fi.Pkg.PkgPath != core.ModPath {
+			continue
+		}
+		info := c.info(fi)
+		ast.Inspect(fi.Decl.Body, func(nd ast.Node) bool {
+			rs, ok := nd.(*ast.RangeStmt)
+			if !ok || rs.Value == nil || !core.IsMap(info.TypeOf(rs.X)) {
+				return true
+			}
+			refObj := core.ObjOf(info, rs.Value)
+			if refObj == nil || !core.IsSpecType(refObj.Type(), "Ref") {
+				return true
+			}
+			for _, st := range rs.Body.List {
+				ifs, ok := st.(*ast.IfStmt)
+				if !ok || len(ifs.Body.List) == 0 {
+					continue
+				}
+				br, isBr := ifs.Body.List[len(ifs.Body.List)-1].(*ast.BranchStmt)
+				if !isBr || br.Tok.String() != "continue" {
+					continue
+				}
+				be, ok := core.Unparen(ifs.Cond).(*ast.BinaryExpr)
+				if !ok || be.Op.String() != "==" {
+					continue
+				}
+				s, isC := core.ConstString(info, be.Y)
+				dir, isCall := core.Unparen(be.X).(*ast.CallExpr)
+				if !isC || s != "#/definitions" || !isCall || !strings.HasPrefix(exprStr(dir.Fun), "path.Dir") || !strings.Contains(exprStr(dir), refObj.Name()+".String()") {
+					continue
+				}
+				n++
+				resolves, returnsErr := false, false
+				ast.Inspect(ifs.Body, func(m ast.Node) bool {
+					switch x := m.(type) {
+					case *ast.CallExpr:
+						uses := false
+						ast.Inspect(x, func(y ast.Node) bool {
+							if id, ok := y.(*ast.Ident); ok && info.Uses[id] == refObj {
+								uses = true
+							}
+							return true
+						})
+						if sel, ok := core.Unparen(x.Fun).(*ast.SelectorExpr); ok && uses {
+							switch sel.Sel.Name {
+							case "Get", "DeepestRef", "ResolveRefWithBase", "ResolveRef":
+								resolves = true
+							}
+						}
+					case *ast.ReturnStmt:
+						for _, r := range x.Results {
+							if core.IsErrorType(info.TypeOf(r)) && !core.IsNilExpr(info, r) {
+								returnsErr = true
+							}
+						}
+					}
+					return true
+				})
+				c.S.Decide(resolves && returnsErr, "C09", "ERR-RESOLVE-SKIPPED", fi.QName()+"/range "+exprStr(rs.X), c.P.Pos(ifs.Pos()),
+					"a $ref skipped as already canonical is still resolved, and a failure is returned",
+					"$refs of the form '#/definitions/<name>' are skipped without being resolved: a dangling local $ref is never noticed and Flatten reports success")
+			}
+			return true
+		})
+	}
+	if n < 1 {
+		c.S.Note("ERR-RESOLVE-SKIPPED: no canonical-ref skip found below Flatten")
+	}
 }
 
 // rebaseRule (C01): in the import step, every $ref of the imported schema is rewritten through
